@@ -14,7 +14,7 @@ func (World) Properties() []string { return []string{"C27", "C28", "C29", "C31"}
 func (World) Real(prop string) []string {
 	switch prop {
 	case "C27":
-		return []string{"storage/immunitycache.ImmunityCache", "storage/immunitycache.immunityChunk", "storage/immunitycache.CacheConfig"}
+		return []string{"storage/immunitycache.ImmunityCache", "storage/immunitycache.immunityChunk", "storage/immunitycache.CacheConfig", "dataRetriever/shardedData.shardedData (sharded arm: one immunity cache per cache id, created lazily)"}
 	case "C28":
 		return []string{"storage/lrucache/capacity.capacityLRU"}
 	case "C29":
@@ -57,7 +57,7 @@ func (World) Assumptions(prop string) []string {
 func (World) Rule(prop string) string {
 	switch prop {
 	case "C27":
-		return "config drawn from everything CacheConfig.Verify accepts (chunks 1-128, items>=4, bytes>=4, evict step>=1, non-divisible values), 30-300 ops put/hasOrAdd/get/remove/immunize/clear over a key pool; non-trivial = at least one chunk reached its limit (an add had to evict or was refused); distinct = hash of full plan"
+		return "config drawn from everything CacheConfig.Verify accepts (chunks 1-128, items>=4, bytes>=4, evict step>=1, non-divisible values), 30-300 ops put/hasOrAdd/get/remove/immunize/clear over a key pool; non-trivial = at least one chunk reached its limit (an add had to evict or was refused); a quarter of the runs (arm sharded) drive the cache through dataRetriever/shardedData with 1-3 cache ids (add / immunize, often as the first operation on a cache id / remove / clear / clear store) and judge only the immune-never-evicted clause; distinct = hash of full plan"
 	case "C28":
 		return "capacity 1-8 items and 1-200 bytes, 20-200 ops addSized/addIfMissing/addAndReturnEvicted/get/peek/contains/remove/purge/keys with sizes -1..300 over <=12 keys; non-trivial = at least one eviction happened; distinct = hash of full plan"
 	case "C29":
@@ -71,7 +71,7 @@ func (World) Rule(prop string) string {
 func (World) NeedsRace(prop string) bool { return prop == "C29" || prop == "C31" }
 
 func (World) Budget(prop, tier string) int {
-	q := map[string]int{"C27": 40000, "C28": 60000, "C29": 6000, "C31": 6000}[prop]
+	q := map[string]int{"C27": 24000, "C28": 60000, "C29": 6000, "C31": 6000}[prop]
 	if tier == "thorough" {
 		return q * 40
 	}
